@@ -118,7 +118,7 @@ def process_error_sources(container_obj, yaml_doc):
         _errs = yaml_doc.pop("errors", [])
         if not isinstance(_errs, list):
             _errs = [_errs] * container_obj.size
-        if len(_errs) > 0 and isinstance(_errs[0], float):
+        if len(_errs) > 0 and isinstance(_errs[0], (int, float, str)):
             _errs = [_errs]
         _axes = [None] * len(_errs)
 
